@@ -27,9 +27,9 @@ import ufoio  # noqa: E402
 
 CONTAINERS = {"plist", "dict", "array"}
 WS = " \t\r\n"
-HEADER = ("Require Import Norad.Run.FontFiles Norad.Model.FontRT Norad.Model.GlifSpec.\n"
+HEADER = ("Require Import Norad.Run.FontFiles Norad.Model.FontRT Norad.Model.GlifSpec Norad.Model.FontInfoFile.\n"
           "Open Scope N_scope.\n")
-CODES = {1: "the model writes another tree", 2: "the model does not read the tree",
+CODES = {5: "the value is not a value of the schema (driver conversion)", 1: "the model writes another tree", 2: "the model does not read the tree",
          3: "the model reads another value", 4: "the model reads a tree norad refuses"}
 
 
@@ -316,7 +316,65 @@ def v_li(pv):
     return "(%s,%s)" % (g_opt(ch, g_color), g_opt(lib, g_dict)), ([ch] if ch else [])
 
 
-FILES = [("metainfo.plist", "k_meta", v_meta), ("lib.plist", "k_lib", lambda pv: g_dict(_dictv(pv, "lib"))),
+# ---- fontinfo.plist: a tagged plist value -> the value of the schema (lib/anchors_fontinfo.py)
+_SCHEMA = {}
+
+
+def fontinfo_schema():
+    if "s" not in _SCHEMA:
+        import anchors_fontinfo
+        import driver
+        _SCHEMA["s"] = anchors_fontinfo.extract(driver.REPO)
+    return _SCHEMA["s"]
+
+
+def to_sval(s, pv, what="fontinfo"):
+    """Gallina [sval] term of a tagged plist value read as schema s; raises UfoError when it is none"""
+    k = s[0]
+    t, v = pv["t"], pv["v"]
+
+    def need(*ts):
+        if t not in ts:
+            raise ufoio.UfoError("%s: expected %s, found %s" % (what, "/".join(ts), t))
+    if k in ("str", "enums"):
+        need("str")
+        return "(VStr %s)" % g_str(v)
+    if k == "bool":
+        need("bool")
+        return "(VBool %s)" % ("true" if v else "false")
+    if k in ("int", "enumi"):
+        need("int")
+        return "(VInt %s)" % g_z(v)
+    if k in ("num", "float"):
+        need("int", "real")
+        return "(VNum %s)" % g_fl(float(v) if t == "int" else ufoio.val(v))
+    if k in ("list", "fix"):
+        need("array")
+        return "(VList %s)" % g_list([to_sval(s[-1], x, what) for x in v])
+    need("dict")
+    keys = {f[0] for f in s[2]}
+    extra = [x for x in v if x not in keys]
+    if extra and s[1]:
+        raise ufoio.UfoError("%s: unknown key %r" % (what, extra[0]))
+    out = []
+    for key, (opt, skip, dflt), fs in s[2]:
+        if key in v:
+            x = to_sval(fs, v[key], what + "/" + key)
+            out.append("(VOpt (Some %s))" % x if opt else x)
+        elif opt:
+            out.append("(VOpt None)")
+        elif dflt and fs[0] == "list":
+            out.append("(VList [])")
+        else:
+            raise ufoio.UfoError("%s: missing key %r" % (what, key))
+    return "(VRec %s)" % g_list(out)
+
+
+def v_info(pv):
+    return to_sval(fontinfo_schema(), pv)
+
+
+FILES = [("fontinfo.plist", "k_info", v_info), ("metainfo.plist", "k_meta", v_meta), ("lib.plist", "k_lib", lambda pv: g_dict(_dictv(pv, "lib"))),
          ("groups.plist", "k_groups", v_groups), ("kerning.plist", "k_kerning", v_kerning),
          ("layercontents.plist", "k_lc", v_lc)]
 
@@ -355,7 +413,7 @@ def perturb(node):
     return None
 
 
-def checks_written(ufo, perturbed=None):
+def checks_written(ufo, perturbed=None, fontinfo=True):
     """[(label, expr)] for every plist file of a UFO norad wrote; raises on files the independent
     reader cannot read (the caller reports).  With a list [perturbed], appends to it the same checks
     on perturbed trees (each must come out non-zero: the self-test of the comparison)."""
@@ -381,6 +439,8 @@ def checks_written(ufo, perturbed=None):
                 perturbed.append((rel + " (perturbed)", "%s %s %s %s" % (fn, tables(node, colors), v, g_node(q))))
 
     for rel, fn, value_of in FILES:
+        if rel == "fontinfo.plist" and not fontinfo:       # (slow to elaborate: the caller samples)
+            continue
         one(rel, fn, value_of)
     for d in _layer_dirs(ufo):
         one(d + "/contents.plist", "k_ct", v_ct)
@@ -390,7 +450,7 @@ def checks_written(ufo, perturbed=None):
 
 # ------------------------------------------------------------------------------------------------
 # values norad loaded (harness dump, the abstract font JSON of ufoio)
-def checks_loaded(ufo, dump):
+def checks_loaded(ufo, dump, fontinfo=True):
     """reader direction on a foreign format-3 UFO norad loaded: metainfo, groups, kerning,
     layercontents, contents and layerinfo against the dump of the loaded font.  (lib.plist is
     compared with the independent reading: the loaded lib has had public.objectLibs moved out.)"""
@@ -412,6 +472,17 @@ def checks_loaded(ufo, dump):
     if os.path.exists(p):
         try:
             one("lib.plist", "r_lib", g_dict(_dictv(ufoio.read_plist_file(p, "lib.plist"), "lib")))
+        except ufoio.UfoError:
+            pass
+    p = os.path.join(ufo, "fontinfo.plist")
+    if fontinfo and os.path.exists(p):
+        try:
+            raw = _dictv(ufoio.read_plist_file(p, "fontinfo.plist"), "fontinfo")
+            merged = dict(dump.get("info") or {})
+            if "guidelines" in raw:          # (the dump holds guidelines as objects with their libs and colour values)
+                merged["guidelines"] = raw["guidelines"]
+            if set(merged) == set(raw):
+                one("fontinfo.plist", "r_info", to_sval(fontinfo_schema(), {"t": "dict", "v": merged}))
         except ufoio.UfoError:
             pass
     groups = dump.get("groups") or {}
